@@ -34,11 +34,16 @@ type fwCase struct {
 	Sections uint32 `json:"sections"`
 	Length   uint32 `json:"length"`
 	// tdxregion (DefaultOnly: only the entry points of the default launch mode are run)
-	DefaultOnly bool   `json:"default_only,omitempty"`
-	SecType     uint32 `json:"sectype"`
-	MemSize     uint64 `json:"memsize"`
-	MemBase     uint64 `json:"membase,omitempty"` // 0: keep the example's base
-	Attr        uint32 `json:"attr,omitempty"`    // section attributes (bit 0: extend)
+	DefaultOnly bool `json:"default_only,omitempty"`
+	// WideBank: the legacy launch modes are given one RAM bank covering the whole address space
+	WideBank bool `json:"wide_bank,omitempty"`
+	// tdxlow: memory size of the boot firmware volume (0: its data size, 0x1000) and of the configuration volume
+	FvMem   uint64 `json:"fvmem,omitempty"`
+	CfvMem  uint64 `json:"cfvmem,omitempty"`
+	SecType uint32 `json:"sectype"`
+	MemSize uint64 `json:"memsize"`
+	MemBase uint64 `json:"membase,omitempty"` // 0: keep the example's base
+	Attr    uint32 `json:"attr,omitempty"`    // section attributes (bit 0: extend)
 	// truncate / mutate
 	Size int    `json:"size"` // base image size
 	Cut  int    `json:"cut"`
@@ -119,6 +124,29 @@ func buildFw(c fwCase) []byte {
 		put(len(img)-0x20-18, 2*c.Pos, "00f771de-1a7e-4fcb-890e-68c77e2fb44e")
 		put(len(img)-0x20, 2*c.Cut, oabi.FwGUIDTableFooterGUID)
 		return img
+	case "tdxlow":
+		// an 8 KiB TDVF whose sections lie in the first pages of guest memory (CFV, BFV, TD_HOB) and one
+		// TempMem section at MemBase / MemSize
+		fw := make([]byte, 0x2000)
+		md := &oabi.TDXMetadata{
+			Header: &oabi.TDXMetadataDescriptor{Signature: oabi.TDXMetadataDescriptorMagic, Length: oabi.SizeofTDXMetadataDescriptor + 4*oabi.SizeofTDXMetdataSection, Version: oabi.TDXMetadataVersion, SectionCount: 4},
+			Sections: []*oabi.TDXMetadataSection{
+				{DataOffset: 0, DataSize: 0x1000, MemoryBase: 0x1000, MemorySize: 0x1000, SectionType: oabi.TDXMetadataSectionTypeCFV},
+				{DataOffset: 0x1000, DataSize: 0x1000, MemoryBase: 0x2000, MemorySize: 0x1000, SectionType: oabi.TDXMetadataSectionTypeBFV, Attributes: oabi.TDXMetadataAttributeExtendMR},
+				{MemoryBase: 0x3000, MemorySize: 0x1000, SectionType: oabi.TDXMetadataSectionTypeTDHOB},
+				{MemoryBase: oabi.EFIPhysicalAddress(c.MemBase), MemorySize: c.MemSize, SectionType: oabi.TDXMetadataSectionTypeTempMem},
+			},
+		}
+		if c.FvMem != 0 {
+			md.Sections[1].MemorySize = c.FvMem
+		}
+		if c.CfvMem != 0 {
+			md.Sections[0].MemorySize = c.CfvMem
+		}
+		if err := fakeovmf.InitializeGUIDTable(fw, oabi.FwGUIDTableEndOffset, []uint16{oabi.SizeofMetadataOffset}, fakeovmf.InitializeTdxGUIDTableFns(fw, 0x100, md)); err != nil {
+			return nil
+		}
+		return fw
 	case "tdxregion":
 		img := fakeovmf.CleanExample(&fx.TB{}, 2*1024*1024)
 		// sections of the example start at 0x100 + 16 (GUID) + 16 (descriptor); entry 4 is the TD_HOB, entry 2 a TempMem
@@ -216,6 +244,9 @@ func runFw(raw json.RawMessage) error {
 		shape = c.Shape
 	}
 	banks := tdx.LaunchOptionsDefaultTDHOBBug(shape).GuestRAMBanks
+	if c.WideBank {
+		banks = []ovmf.GuestPhysicalRegion{{Start: 0, Length: ^uint64(0)}}
+	}
 	_, err = tdx.MRTD(tdx.LaunchOptionsDefault(""), img)
 	note("MRTD(default)", err)
 	if c.DefaultOnly {
@@ -489,6 +520,25 @@ func RunC08(run *vk.Run) {
 			add(fwCase{Kind: "tdxregion", SecType: 3, MemSize: sz, MemBase: 1 << 32, Attr: attr, DefaultOnly: true, Key: fmt.Sprintf("tdxregion type3 flagged for extension (attr %#x), %#x bytes, default mode only", attr, sz)})
 		}
 	}
+	// a TempMem section at the very top of the guest-physical address space: its end is 2^64 exactly, or
+	// wraps past it; with the shapes' RAM banks and with one bank that covers everything
+	for _, sz := range []uint64{0x1000, 0x2000, 0x6000} {
+		for _, wide := range []bool{false, true} {
+			add(fwCase{Kind: "tdxregion", SecType: 3, MemSize: sz, MemBase: 0xfffffffffffff000, WideBank: wide, Key: fmt.Sprintf("tdxregion type3 at the top of the address space, %#x bytes (end wraps: %v), wide bank %v", sz, sz > 0x1000, wide)})
+		}
+	}
+	// ... and the same with every other section in the first pages of guest memory (where a wrapped end lands)
+	for _, bs := range [][2]uint64{{0xfffffffffffff000, 0x1000}, {0xfffffffffffff000, 0x2000}, {0xfffffffffffff000, 0x6000}, {0xffffffffffff9000, 0x6000}, {0xffffffffffffe000, 0x3000}, {0x8000, 0x2000}} {
+		for _, wide := range []bool{false, true} {
+			add(fwCase{Kind: "tdxlow", MemBase: bs[0], MemSize: bs[1], WideBank: wide, Key: fmt.Sprintf("tdxlow TempMem at %#x, %#x bytes, wide bank %v", bs[0], bs[1], wide)})
+		}
+	}
+	// firmware volumes whose memory size is not their data size (more memory than the image has bytes
+	// behind the volume's offset, a size whose 32-bit sum with the offset wraps)
+	for _, fm := range []uint64{0x800, 0x1001, 0x2000, 0x3000, 0xfffff000, 0x100001000} {
+		add(fwCase{Kind: "tdxlow", MemBase: 0x8000, MemSize: 0x1000, FvMem: fm, Key: fmt.Sprintf("tdxlow boot volume memory size %#x for %#x bytes of data", fm, 0x1000)})
+		add(fwCase{Kind: "tdxlow", MemBase: 0x8000, MemSize: 0x1000, CfvMem: fm, Key: fmt.Sprintf("tdxlow configuration volume memory size %#x for %#x bytes of data", fm, 0x1000)})
+	}
 	// every launch option: products the enumeration knows and values it does not
 	for _, p := range []int32{0, 1, 2, 3, 4, 5, 100, 1 << 30, -1} {
 		add(fwCase{Kind: "product", Product: p, Key: fmt.Sprintf("product=%d", p)})
@@ -528,6 +578,10 @@ func RunC08(run *vk.Run) {
 			key = fmt.Sprintf("tdxregion-within-image:type%d", c.SecType)
 		} else if c.Kind == "tdxregion" {
 			key = fmt.Sprintf("tdxregion:type%d", c.SecType)
+		} else if c.Kind == "tdxlow" {
+			// (a section at the top of the address space is another input class than the oversized regions
+			// of the listed findings, whatever its size)
+			key = "tdxlow"
 		} else if t := oversizedTdxRegion(buildFw(c)); t != 0 {
 			// a byte mutation that lands in the memory-size field of a TD_HOB / TempMem section is the
 			// same input class as the tdxregion witnesses: classify by cause, not by how it was generated
